@@ -116,13 +116,17 @@ func EndBlocker(ctx sdk.Context, k keeper.Keeper) {
 			}
 
 			if len(providers) > 0 && len(providers) >= int(requestContext.ResponseThreshold) {
-				if err := k.DeductServiceFees(ctx, consumer, totalPrices); err != nil {
+				// the bank debits coin by coin: keep a failed deduction from leaving a partial debit
+				cacheCtx, writeCache := ctx.CacheContext()
+				if err := k.DeductServiceFees(cacheCtx, consumer, totalPrices); err != nil {
 					k.OnRequestContextPaused(
 						ctx,
 						requestContext,
 						requestContextID,
 						"insufficient balances",
 					)
+				} else {
+					writeCache()
 				}
 
 				if requestContext.State == types.RUNNING {
